@@ -299,6 +299,8 @@ class Interp:
             return mod.cache[name]
         ov = self.reg.module_values.get(f"{mod.name}:{name}", _NOVAL)
         if ov is not _NOVAL:
+            if isinstance(ov, LazyModuleValue):  # a stand-in object that needs the interpreter to be built (once per path)
+                ov = mod.cache[name] = ov.fn(self)
             return ov
         if name in mod.defs:
             node = mod.defs[name]
@@ -2159,6 +2161,13 @@ class Interp:
 
 
 _NOVAL = object()
+
+
+class LazyModuleValue:
+    """Registry.module_values entry built with the interpreter at first use: LazyModuleValue(lambda it: ...)."""
+
+    def __init__(self, fn):
+        self.fn = fn
 
 
 class _UndefinedOld:
